@@ -204,8 +204,11 @@ class err_handler(object):
                 return
             self.cur_st_node.children.append(self.cur_seg_node)
             # a segment node is only added when it carries an error: a set that
-            # was already closed as accepted is not accepted any more
+            # was already closed as accepted is not accepted any more, nor is its
+            # group if that has been closed too
             self.cur_st_node.ack_code = 'R'
+            if self.cur_gs_node is not None and self.cur_gs_node.ack_code == 'A':
+                self.cur_gs_node.ack_code = 'R'
             self.seg_node_added = True
 
     def add_ele(self, map_node):
@@ -228,6 +231,13 @@ class err_handler(object):
         if not self.ele_node_added and self.cur_seg_node is not None:
             self.cur_seg_node.elements.append(self.cur_ele_node)
             self.ele_node_added = True
+            if self.cur_seg_node is self.cur_st_node and self.cur_st_node.ack_code == 'A':
+                # the elements of SE are validated after the set has been closed:
+                # a set closed as accepted is not accepted any more
+                self.cur_st_node.ack_code = 'R'
+            elif self.cur_seg_node is self.cur_gs_node and self.cur_gs_node.ack_code == 'A':
+                # likewise for the elements of GE and the group
+                self.cur_gs_node.ack_code = 'R'
         #logger.debug('----  add_ele: %s' % self.cur_seg_node.elements[-1].name)
 
     def isa_error(self, err_cde, err_str):
